@@ -219,6 +219,12 @@ class Tracker:
     def refs(self):
         return sorted(self.s)
 
+    def add_ghost(self, path):
+        self.s[("t", path)] = dict(kind=None, versioned=False, removed=False,
+                                   new=None, unversioned=False, newid=False,
+                                   tree=False, parent=self._pref(path),
+                                   name=path.rsplit("/", 1)[-1])
+
     def add_new(self, kind, versioned, parent, name):
         r = ("n", self.n)
         self.n += 1
